@@ -373,4 +373,5 @@ func Gen(run *vlib.Run, seed uint64, tier string) {
 
 	// (5) complete fonts through the full writer, read by a second implementation
 	genFonts(run, root.Fork("fonts"), tier)
+	genConcurrent(run, root.Fork("concurrent"), tier)
 }
